@@ -57,6 +57,8 @@ def check(chk, fx):
     stdexrules.bitset(chk, fx)       # character classes / item and FIRST sets live in cbitset
     lexrules.tag(chk, fx)
     lexrules.lenw(chk, fx)
+    from .. import ownrules
+    ownrules.bufref(chk, fx, 6)       # "exactly that slice of the caller's buffer"
     from .. import width
     width.check(chk, fx, classes=("LEN",), minimum=8)     # every carrier of a lexeme length
     tix.report(chk, fx)
